@@ -107,13 +107,21 @@ def make_model_class():
     from pydsol.core.utils import DSOLError
     from pydsol.core.simulator import RunState
 
+    class RawEvent(SimEvent):
+        """a user implementation of the event interface that does not wrap
+        handler exceptions in DSOLError"""
+
+        def execute(self):
+            self._method(**self._kwargs)
+
     class ProgModel(DSOLModel):
-        def __init__(self, sim, prog, T, faults=None, gates=None):
+        def __init__(self, sim, prog, T, faults=None, gates=None, raw=()):
             super().__init__(sim)
             self.prog = prog
             self.T = T
             self.faults = faults or {}
             self.gates = gates or {}     # execution index -> CoopEvent
+            self.raw = set(raw)          # tags scheduled as non-wrapping events
             self.reset()
 
         def reset(self):
@@ -136,9 +144,6 @@ def make_model_class():
             k = self.nexec
             self.nexec += 1
             f = self.faults.get(tag)
-            if f == "pre":
-                raise Fault("pre %r" % (tag,))
-            self.do(tag)
             g = self.gates.get(k)
             if g is not None:
                 # rendezvous: tell the driver, wait until it has asked to stop
@@ -147,6 +152,9 @@ def make_model_class():
                 while sim.run_state != RunState.STOPPING and n < 10000:
                     coop_sleep(0.0001)
                     n += 1
+            if f == "pre":
+                raise Fault("pre %r" % (tag,))
+            self.do(tag)
             if f == "post":
                 raise Fault("post %r" % (tag,))
 
@@ -154,7 +162,11 @@ def make_model_class():
             sim = self.simulator
             T = self.T
             for a in self.prog[tag]:
-                if a[0] == "s":
+                if a[0] == "s" and a[4] in self.raw:
+                    _, kind, d, p, ch = a
+                    self.ev[ch] = sim.schedule_event(RawEvent(
+                        sim.simulator_time + T(d), self, "h", p, tag=ch))
+                elif a[0] == "s":
                     _, kind, d, p, ch = a
                     if kind == "now":
                         self.ev[ch] = sim.schedule_event_now(self, "h", p,
@@ -324,3 +336,152 @@ def wide_programs(sizes, small_exhaustive=7):
                     prog[i] = []
                 prog[M] = [("c", j)]
                 yield prog
+
+
+# ------------------------------------------------------------------ lockstep
+STATES = {"INIT": ("INITIALIZED", "INITIALIZED"),
+          "STOPPED": ("STOPPED", "STARTED"), "ENDED": ("ENDED", "ENDED")}
+
+
+class RefSim:
+    """reference semantics of run pieces: ('start',) ('upto',t) ('uptoi',t)
+    ('step',) ('pause_at',k).  `spec` is False for cells the documentation
+    leaves open (bound before the clock / beyond the end; step when the next
+    event lies beyond the end)."""
+
+    def __init__(self, prog, end=END, warmup=0, faults=None,
+                 pause_on_fault=False):
+        self.ref = Ref(prog, end, warmup, faults)
+        self.end = end
+        self.faults = faults or {}
+        self.pause_on_fault = pause_on_fault
+        self.state = "INIT"
+        self.nexec = 0
+
+    def expect(self, outcome, spec=True, **kw):
+        d = dict(outcome=outcome, trace=list(self.ref.trace),
+                 clock=float(self.ref.clock), state=STATES[self.state],
+                 spec=spec)
+        d.update(kw)
+        return d
+
+    def cmd(self, piece):
+        ref = self.ref
+        if self.state == "ENDED":
+            return self.expect("DSOLError")
+        k = piece[0]
+        if k == "step":
+            spec = True
+            nxt = ref.peek()
+            if nxt is not None and nxt[0] <= self.end:
+                tag = ref.step()
+                if tag != "W":
+                    self.nexec += 1
+            else:
+                spec = nxt is None   # next event beyond the end: open cell
+            self.state = "STOPPED"
+            return self.expect("ok", spec)
+        spec = True
+        pause_k = None
+        if k in ("start", "pause_at"):
+            bound, incl = self.end, True
+            if k == "pause_at":
+                pause_k = piece[1]
+        else:
+            bound, incl = piece[1], (k == "uptoi")
+            if bound < ref.clock or bound > self.end:
+                spec = False
+            if bound > self.end:
+                bound, incl = self.end, True
+        paused = False
+        while ref.pend:
+            e = ref.peek()
+            if e[0] > bound or (e[0] == bound and not incl):
+                break
+            tag = ref.step()
+            if tag == "W":
+                continue
+            self.nexec += 1
+            if pause_k is not None and self.nexec - 1 == pause_k:
+                paused = True
+            if self.pause_on_fault and tag in self.faults:
+                paused = True
+            if paused:
+                break
+        if paused:
+            self.state = "STOPPED"
+            return self.expect("ok", spec, paused=True)
+        if bound > ref.clock:
+            ref.clock = bound
+        self.state = "ENDED" if (bound >= self.end and incl) else "STOPPED"
+        return self.expect("ok", spec, paused=False,
+                           may_end=(k == "upto" and piece[1] == self.end))
+
+
+def issue(sim, s, model, piece, T):
+    """issue one piece on the real simulator from the driver thread and wait
+    for scheduler-decided quiescence; returns the outcome string"""
+    from pydsol.core.utils import DSOLError
+    k = piece[0]
+    gate = None
+    try:
+        if k == "start":
+            sim.start()
+        elif k == "upto":
+            sim.run_up_to(T(piece[1]))
+        elif k == "uptoi":
+            sim.run_up_to_including(T(piece[1]))
+        elif k == "step":
+            sim.step()
+        elif k == "pause_at":
+            gate = coopsched.CoopEvent()
+            model.gates = {piece[1]: gate}
+            sim.start()
+            me = s.current
+            while not gate.is_set() and not s._others_quiet(me):
+                coop_sleep(0.001)
+            if gate.is_set():
+                sim.stop()
+        else:
+            raise ValueError(piece)
+        out = "ok"
+    except DSOLError:
+        out = "DSOLError"
+    except Exception as ex:  # noqa
+        out = "other:%s" % type(ex).__name__
+    finally:
+        s.wait_quiescent()
+        model.gates = {}
+    return out
+
+
+def run_pieces(prog, clock, pieces, faults=None, strategy=None, raw=(),
+               end=END, warmup=0, listener=None):
+    """execute the piece list on the real simulator; one observation per
+    piece plus a final one after cleanup"""
+    from pydsol.core.experiment import SingleReplication
+    simc, T = time_types()[clock]
+    M = model_class()
+
+    def body(s):
+        sim = simc("s")
+        m = M(sim, prog, T, faults=faults, raw=raw)
+        if strategy is not None:
+            sim.set_error_strategy(strategy)
+        sim.initialize(m, SingleReplication("r", T(0), T(warmup), T(end)))
+        if listener is not None:
+            listener(sim)
+        obs = []
+        for piece in pieces:
+            out = issue(sim, s, m, piece, T)
+            obs.append(dict(outcome=out, trace=list(m.trace),
+                            clock=float(sim.simulator_time),
+                            state=(sim.run_state.name,
+                                   sim.replication_state.name)))
+        sim.cleanup()
+        s.wait_quiescent()
+        return obs
+    r = coopsched.run_one(body)
+    if r.failure:
+        return {"failure": r.failure}
+    return {"obs": r.value}
